@@ -7,7 +7,7 @@
    comb / fuel / the script [evs] quantify over every reader behaviour (arbitrary
    chunking, 0-byte reads, an error at any offset, data together with EOF/error).
    [matches_desc H dg sz bs] = length bs = sz /\ dg = alg:H alg bs /\ dg is a valid digest. *)
-From Oras Require Import Base.Prelude Generated.GC05 Model.Verify Proofs.Verify Proofs.VerifyComplete Proofs.VerifyProxy Proofs.VerifyFuel Proofs.VerifyConc.
+From Oras Require Import Base.Prelude Generated.GC05 Model.Verify Proofs.Verify Proofs.VerifyComplete Proofs.VerifyProxy Proofs.VerifyFuel Proofs.VerifyConc Proofs.VerifyTop.
 
 (* ReadAll hands back data only when length and digest match and the reader held
    nothing else *)
@@ -61,17 +61,47 @@ Theorem C05_push_oci_complete :
 Proof. exact oci_push_complete. Qed.
 Print Assumptions C05_push_oci_complete.
 
+(* the same for the file store: a named push under a fresh name, and an unnamed push
+   into the fallback (LimitedStorage over the memory store) *)
+Theorem C05_push_file_complete :
+  forall (H : str -> str -> str) comb fuel s name path d evs,
+    name <> [] -> name_in name (f_names s) = false ->
+    nfail evs = 0%nat -> valid_digest (d_dg d) = true ->
+    d_dg d = digest_of H (alg_of (d_dg d)) (stream evs) -> d_sz d = Z.of_nat (length (stream evs)) ->
+    (ev_weight evs < fuel)%nat ->
+    file_push H comb true fuel s name path d evs
+    = (None, mkFs (assoc_set (f_files s) path (stream evs)) (name :: f_names s)
+                  (assoc_set (f_d2p s) (d_dg d) path) (f_fb s)).
+Proof. exact file_push_complete. Qed.
+Print Assumptions C05_push_file_complete.
+
+Theorem C05_push_limited_complete :
+  forall (H : str -> str -> str) comb fixed fuel limit m d evs,
+    (d_sz d <= limit)%Z -> mem_get m d = None -> nfail evs = 0%nat -> valid_digest (d_dg d) = true ->
+    d_dg d = digest_of H (alg_of (d_dg d)) (stream evs) -> d_sz d = Z.of_nat (length (stream evs)) ->
+    (ev_weight evs < fuel)%nat ->
+    limited_push (mem_push H comb fixed fuel) limit m d evs = (None, (d, stream evs) :: m).
+Proof. exact limited_mem_push_complete. Qed.
+Print Assumptions C05_push_limited_complete.
+
+Theorem C05_push_file_fallback_complete :
+  forall (H : str -> str -> str) comb fuel s path d evs,
+    (d_sz d <= defaultFallbackPushSizeLimit)%Z -> mem_get (f_fb s) d = None ->
+    nfail evs = 0%nat -> valid_digest (d_dg d) = true ->
+    d_dg d = digest_of H (alg_of (d_dg d)) (stream evs) -> d_sz d = Z.of_nat (length (stream evs)) ->
+    (ev_weight evs < fuel)%nat ->
+    file_push H comb true fuel s [] path d evs
+    = (None, mkFs (f_files s) (f_names s) (f_d2p s) ((d, stream evs) :: f_fb s)).
+Proof. exact file_push_fallback_complete. Qed.
+Print Assumptions C05_push_file_fallback_complete.
+
 (* FetchAll = Fetch then ReadAll: whatever bytes a store's Fetch serves (even a blob
    corrupted on disk), FetchAll returns them only if they match the descriptor *)
 Theorem C05_fetchall :
   forall (H : str -> str -> str) comb fixed fuel served dg sz buf v,
     read_all H comb fixed fuel (mkBase [Data served] None) dg sz = ((None, buf), v) ->
     buf = served /\ matches_desc H dg sz served.
-Proof.
-  intros H comb fixed fuel served dg sz buf v E.
-  destruct (read_all_sound H comb fixed fuel _ dg sz buf v E) as (A & _ & C).
-  specialize (C eq_refl). simpl in C. rewrite app_nil_r in C. subst buf. split; [reflexivity|exact A].
-Qed.
+Proof. exact C05_fetchall_l. Qed.
 Print Assumptions C05_fetchall.
 
 (* any use of a VerifyReader (any sequence of Read(k) and Verify calls): once
@@ -110,11 +140,7 @@ Theorem C05_trailing_short_malformed_rejected :
      (b_lim src = None /\ (sz < Z.of_nat (length (stream (b_evs src))))%Z)) ->
     (forall fixed buf v, read_all H comb fixed fuel src dg sz <> ((None, buf), v)) /\
     (forall out v, copy_buffer H comb true fuel src bufsz dg sz <> ((None, out), v)).
-Proof.
-  intros H comb fuel src bufsz dg sz B. split.
-  - intros fixed buf v. exact (read_all_rejects H comb fixed fuel src dg sz buf v B).
-  - intros out v. exact (copy_buffer_rejects H comb fuel src bufsz dg sz out v B).
-Qed.
+Proof. exact C05_trailing_short_malformed_rejected_l. Qed.
 Print Assumptions C05_trailing_short_malformed_rejected.
 
 (* a reader that returns an error at any offset before it is exhausted is never
@@ -126,7 +152,7 @@ Theorem C05_failing_reader_rejected :
     (forall bufsz out v, copy_buffer H comb true fuel (mkBase evs None) bufsz (d_dg d) (d_sz d) <> ((None, out), v)) /\
     (forall fixed m e m', mem_push H comb fixed fuel m d (mkBase evs None) = (e, m') -> e <> None /\ m' = m) /\
     (forall s e s', oci_push H comb true fuel s d (mkBase evs None) = (e, s') -> e <> None /\ s' = s) /\
-    (forall s name e s', name <> [] -> file_push H comb true fuel s name d evs = (e, s') -> e <> None).
+    (forall s name path e s', name <> [] -> file_push H comb true fuel s name path d evs = (e, s') -> e <> None).
 Proof. exact failing_reader_rejected. Qed.
 Print Assumptions C05_failing_reader_rejected.
 
@@ -140,7 +166,7 @@ Theorem C05_early_failure_rejected :
     (forall lim bufsz out v, copy_buffer H comb true fuel (mkBase evs lim) bufsz (d_dg d) (d_sz d) <> ((None, out), v)) /\
     (forall fixed lim m e m', mem_push H comb fixed fuel m d (mkBase evs lim) = (e, m') -> e <> None /\ m' = m) /\
     (forall lim s e s', oci_push H comb true fuel s d (mkBase evs lim) = (e, s') -> e <> None /\ s' = s) /\
-    (forall s name e s', file_push H comb true fuel s name d evs = (e, s') -> e <> None).
+    (forall s name path e s', file_push H comb true fuel s name path d evs = (e, s') -> e <> None).
 Proof. exact early_failure_rejected. Qed.
 Print Assumptions C05_early_failure_rejected.
 
@@ -157,7 +183,9 @@ Proof. exact mem_push_spec. Qed.
 Print Assumptions C05_push_memory.
 
 (* oci.Storage.Push: success adds exactly the descriptor's bytes under blobs/; failure
-   leaves blobs/ (and ingest/) as they were *)
+   leaves blobs/ as it was (ingest/ is not part of this sequential model: left-over
+   ingest files are judged by the oracle, signature ingest-left, and in the concurrent
+   model by [ingest_files]) *)
 Theorem C05_push_oci :
   forall (H : str -> str -> str) comb fuel s d src e s',
     oci_push H comb true fuel s d src = (e, s') ->
@@ -179,12 +207,17 @@ Theorem C05_push_limited :
 Proof. exact @limited_push_spec. Qed.
 Print Assumptions C05_push_limited.
 
-(* file.Store.Push (named files and the limited-memory fallback), on every reachable
-   state: the store invariant is kept; success makes matching content visible; failure
-   leaves Exists and Fetch of every descriptor unchanged *)
-Theorem C05_push_file :
-  forall (H : str -> str -> str) comb fuel s name d evs e s',
-    file_reach H s -> file_push H comb true fuel s name d evs = (e, s') ->
+(* file.Store.Push (named files and the limited-memory fallback), on every state reached
+   without aliasing, for a push whose resolved path does not alias a path that serves
+   visible content ([path_free]; [path] = resolveWritePath name): the store invariant
+   is kept; success makes matching content visible; failure leaves Exists and Fetch of
+   every descriptor unchanged.  PARTIAL: without [path_free] the statement is false for
+   the code (names are compared as strings but written as paths), see
+   C05_push_file_alias_refuted -- known finding file-alias-clobbers-visible. *)
+Theorem C05_push_file_partial :
+  forall (H : str -> str -> str) comb fuel s name path d evs e s',
+    file_reach H s -> path_free s path ->
+    file_push H comb true fuel s name path d evs = (e, s') ->
     (e = None ->
        exists bs, file_fetch s' name d = Some bs /\ file_exists s' name d = true /\
                   d_dg d = digest_of H (alg_of (d_dg d)) bs /\ valid_digest (d_dg d) = true /\
@@ -192,11 +225,24 @@ Theorem C05_push_file :
                    matches_desc H (d_dg d) (d_sz d) bs /\ exists rest, stream evs = bs ++ rest)) /\
     (e <> None -> forall name' d', file_exists s' name' d' = file_exists s name' d' /\
                                    file_fetch s' name' d' = file_fetch s name' d').
-Proof.
-  intros H comb fuel s name d evs e s' R E.
-  exact (proj2 (file_push_spec H comb fuel s name d evs e s' (file_reach_ok H s R) E)).
-Qed.
-Print Assumptions C05_push_file.
+Proof. exact C05_push_file_partial_l. Qed.
+Print Assumptions C05_push_file_partial.
+
+(* the full statement (any name) is refuted by the model of the current code: "a" and
+   "./a" are two names of one path; a successful second push replaces the bytes served
+   under the first descriptor, a FAILED second push removes them *)
+Theorem C05_push_file_alias_refuted :
+  exists (H : str -> str -> str) dX dY s1 s2 s2' e,
+    file_push H false true 20 (mkFs [] [] [] []) (b "a") (b "a") dX [Data [1;2;3]] = (None, s1) /\
+    (* second name, same path, good content: Fetch of the first descriptor changes *)
+    file_push H false true 20 s1 (b "./a") (b "a") dY [Data [7;7]] = (None, s2) /\
+    file_fetch s1 (b "a") dX = Some [1;2;3] /\ file_fetch s2 (b "a") dX = Some [7;7] /\
+    d_dg dX <> digest_of H (alg_of (d_dg dX)) [7;7] /\
+    (* second name, same path, bad content: the push fails and the first content is gone *)
+    file_push H false true 20 s1 (b "./a") (b "a") dY [Data [9]] = (Some e, s2') /\
+    file_exists s2' (b "a") dX = true /\ file_fetch s2' (b "a") dX = None.
+Proof. exact file_alias_refuted. Qed.
+Print Assumptions C05_push_file_alias_refuted.
 
 (* bad input never gets in, whatever the store *)
 Theorem C05_push_bad_rejected :
@@ -210,20 +256,15 @@ Theorem C05_push_bad_rejected :
     (forall s e s',
        bad_input H (mkBase evs None) (d_dg d) (d_sz d) ->
        oci_push H comb true fuel s d (mkBase evs None) = (e, s') -> e <> None /\ s' = s) /\
-    (forall s name e s',
+    (forall s name path e s',
        bad_input H (mkBase evs (match name with [] => Some (d_sz d) | _ => None end)) (d_dg d) (d_sz d) ->
-       file_push H comb true fuel s name d evs = (e, s') -> e <> None).
-Proof.
-  intros H comb fuel d evs. split; [|split; [|split]].
-  - intros fixed m e m' B E. exact (mem_push_rejects H comb fixed fuel m d _ e m' B E).
-  - intros fixed limit m e m' B E. exact (limited_mem_push_rejects H comb fixed fuel limit m d evs e m' B E).
-  - intros s e s' B E. exact (oci_push_rejects H comb fuel s d _ e s' B E).
-  - intros s name e s' B E. exact (file_push_rejects H comb fuel s name d evs e s' B E).
-Qed.
+       file_push H comb true fuel s name path d evs = (e, s') -> e <> None).
+Proof. exact C05_push_bad_rejected_l. Qed.
 Print Assumptions C05_push_bad_rejected.
 
 (* after ANY history of pushes (good, bad, duplicate, limited) whatever a store
-   serves matches the descriptor / digest it is served under *)
+   serves matches the descriptor / digest it is served under (file store: histories
+   without name aliasing, see C05_push_file_alias_refuted) *)
 Theorem C05_visible_matches :
   forall (H : str -> str -> str),
     (forall m d bs, mem_reach H m -> mem_get m d = Some bs -> matches_desc H (d_dg d) (d_sz d) bs) /\
@@ -231,12 +272,7 @@ Theorem C05_visible_matches :
                      dg = digest_of H (alg_of dg) bs /\ valid_digest dg = true) /\
     (forall s name d bs, file_reach H s -> file_fetch s name d = Some bs ->
                          d_dg d = digest_of H (alg_of (d_dg d)) bs /\ valid_digest (d_dg d) = true).
-Proof.
-  intro H. split; [|split].
-  - intros m d bs R. exact (mem_reach_ok H m R d bs).
-  - intros s dg bs R. exact (oci_reach_ok H s R dg bs).
-  - intros s name d bs R. exact (file_fetch_ok H s name d bs (file_reach_ok H s R)).
-Qed.
+Proof. exact C05_visible_matches_l. Qed.
 Print Assumptions C05_visible_matches.
 
 (* the fuel of the model's loops excludes nothing: with more fuel than the weight of
@@ -252,14 +288,7 @@ Theorem C05_fuel_sufficient :
        fst (fst (copy_buffer H comb fixed fuel src bufsz dg sz)) <> Some EFuel /\
        forall fuel', (ev_weight (b_evs src) < fuel')%nat ->
          copy_buffer H comb fixed fuel' src bufsz dg sz = copy_buffer H comb fixed fuel src bufsz dg sz).
-Proof.
-  intros H comb fixed fuel src bufsz dg sz Fu. split; [|split].
-  - exact (read_all_no_fuel H comb fixed fuel src dg sz Fu).
-  - intros fuel' Fu'. exact (read_all_fuel_indep H comb fixed fuel' fuel src dg sz Fu' Fu).
-  - intro B1. split.
-    + exact (copy_buffer_no_fuel H comb fixed fuel src bufsz dg sz B1 Fu).
-    + intros fuel' Fu'. exact (copy_buffer_fuel_indep H comb fixed fuel' fuel src bufsz dg sz B1 Fu' Fu).
-Qed.
+Proof. exact C05_fuel_sufficient_l. Qed.
 Print Assumptions C05_fuel_sufficient.
 
 (* cas.Proxy (NewProxy / NewProxyWithLimit over a cas.Memory cache; Fetch, any
@@ -305,14 +334,29 @@ Theorem C05_concurrent_same_digest :
                          t_pc t = PIngest w [] None ->
        exists w', oci_get (c_blobs st') (d_dg (t_d t)) = Some w' /\
                   matches_desc H (d_dg (t_d t)) (d_sz (t_d t)) w' /\ stream (t_evs t) = w').
-Proof.
-  intros H blobs ts sched st R F E.
-  pose proof (crun_inv H sched _ _ (cinv_start H blobs ts (oci_reach_ok H blobs R) F) E) as Iv.
-  split.
-  - exact (proj1 Iv).
-  - intros i n st' t w Es Ei Ep. exact (cstep_success H st i n st' t Iv Es Ei (ex_intro _ w Ep)).
-Qed.
+Proof. exact C05_concurrent_same_digest_l. Qed.
 Print Assumptions C05_concurrent_same_digest.
+
+(* the same for one cas.Memory (directly or through LimitedStorage): Load, ReadAll,
+   LoadOrStore of any number of threads in any order *)
+Theorem C05_concurrent_memory :
+  forall (H : str -> str -> str) m ts sched st,
+    mem_reach H m -> Forall (fun t => m_pc t = MStart) ts ->
+    mrun H (mkM m ts) sched = Some st ->
+    (forall d bs, mem_get (ms_mem st) d = Some bs -> matches_desc H (d_dg d) (d_sz d) bs) /\
+    (forall i st' t buf, mstep H st i = Some st' -> nth_error (ms_thr st) i = Some t ->
+       m_pc t = MRead None buf -> mem_get (ms_mem st) (m_d t) = None ->
+       mem_get (ms_mem st') (m_d t) = Some buf /\ matches_desc H (d_dg (m_d t)) (d_sz (m_d t)) buf /\
+       exists rest, stream (m_evs t) = buf ++ rest).
+Proof. exact memory_concurrent. Qed.
+Print Assumptions C05_concurrent_memory.
+
+(* the outcome set memory-store races are compared with consists of runs of that system *)
+Theorem C05_concurrent_memory_explored :
+  forall (H : str -> str -> str) fuel st st',
+    In st' (explore_m H fuel st) -> exists sched, mrun H st sched = Some st'.
+Proof. exact explore_m_reachable. Qed.
+Print Assumptions C05_concurrent_memory_explored.
 
 (* the outcome set the implementation's concurrent runs are compared with (exhaustive
    interleaving of the micro-steps, [explore]) consists of runs of the transition
@@ -324,11 +368,7 @@ Theorem C05_concurrent_explored :
     (exists sched, crun H (mkC blobs ts) sched = Some st') /\
     (forall dg bs, oci_get (c_blobs st') dg = Some bs ->
                    dg = digest_of H (alg_of dg) bs /\ valid_digest dg = true).
-Proof.
-  intros H fuel big blobs ts st' R F I1. split.
-  - exact (explore_reachable H fuel big _ _ I1).
-  - exact (explore_invariant H fuel big blobs ts st' R F I1).
-Qed.
+Proof. exact C05_concurrent_explored_l. Qed.
 Print Assumptions C05_concurrent_explored.
 
 (* the behaviour before the repair (NewVerifyReader accepted a negative Size): the
@@ -338,16 +378,11 @@ Theorem C05_push_sound_refuted_negative_size :
     valid_digest (empty_digest H) = true ->
     exists d, (d_sz d < 0)%Z /\
       oci_push H comb false 1 [] d (mkBase [] None) = (None, [(d_dg d, [])]).
-Proof.
-  intros H comb mt V. exists (mkDesc mt (empty_digest H) (-1)). split; [reflexivity|].
-  exact (oci_push_prefix_negative_size H comb mt V).
-Qed.
+Proof. exact C05_push_sound_refuted_negative_size_l. Qed.
 Print Assumptions C05_push_sound_refuted_negative_size.
 
 (* ------------------------------------------------------------------ the hypotheses are satisfiable *)
-(* a toy digest function: 64 hex characters derived from the byte sum *)
-Definition toyH (alg data : str) : str := repeat (48 + (fold_left N.add data 0) mod 10) 64.
-Definition toy_dg (data : str) : str := digest_of toyH (b "sha256") data.
+(* toyH / toy_dg: a toy digest function (Proofs/VerifyTop.v): 64 hex characters derived from the byte sum *)
 
 Example C05_ex_readall_ok :
   read_all toyH true true 20 (mkBase [Zero; Data [1;2]; Zero; Data [3]] None) (toy_dg [1;2;3]) 3
